@@ -175,8 +175,44 @@ def decode_side_tree(draw, t, max_len=3, vdepth=2):
 
 
 @st.composite
-def typed_values(draw, max_types=4, depth=3, allow_h=False, min_types=1, limits=False):
+def big_values(draw):
+    """(signature, trees) with lengths that cross the 8-, 16- and (in bytes) 17-bit boundaries: a length
+    field mishandled above 255 or 65535 shows only here."""
+    kind = draw(st.sampled_from(['s', 's', 'ay', 'as', 'a{us}', 'ai', 'aay', 'v-ay', '(say)', 'g', 'o']))
+    n = draw(st.sampled_from([255, 256, 257, 4096, 65535, 65536, 70001]))
+    ch = draw(st.sampled_from(['x', 'é', '\r\n']))
+    if kind == 's':
+        return 's', [ch * n]
+    if kind == 'ay':
+        return 'ay', [[(i * 7) % 256 for i in range(n)]]
+    if kind == 'as':
+        m = min(n, 2000)
+        return 'as', [['s%d' % i for i in range(m)]]
+    if kind == 'a{us}':
+        m = min(n, 1500)
+        return 'a{us}', [[[i, 'v%d' % i] for i in range(m)]]
+    if kind == 'ai':
+        m = min(n, 20000)
+        return 'ai', [[i - 5 for i in range(m)]]
+    if kind == 'aay':
+        return 'aay', [[[1] * 300, [], [2] * min(n, 5000)]]
+    if kind == 'v-ay':
+        return 'v', [['ay', [(i * 3) % 256 for i in range(n)]]]
+    if kind == '(say)':
+        return '(say)', [[ch * 300, [9] * min(n, 5000)]]
+    if kind == 'g':
+        return 'g', ['i' * draw(st.sampled_from([254, 255]))]
+    return 'o', ['/' + '/'.join(['seg%d' % i for i in range(min(n, 3000) // 6 + 1)])]
+
+
+@st.composite
+def typed_values(draw, max_types=4, depth=3, allow_h=False, min_types=1, limits=False, big=False):
     """(signature, trees)"""
+    if big and draw(st.integers(0, 29)) == 0:
+        sig, trees = draw(big_values())
+        if draw(st.booleans()):
+            return 'y' + sig, [7] + trees      # shifts the alignment of what follows
+        return sig, trees
     if limits and draw(st.integers(0, 19)) == 0:
         types = [draw(limit_type())]
         max_len = 1
@@ -465,7 +501,7 @@ def _field_value(name):
 
 
 @st.composite
-def message(draw, mtypes=(1, 2, 3, 4), body_depth=2, allow_h=False, max_types=3, with_sender=True):
+def message(draw, mtypes=(1, 2, 3, 4), body_depth=2, allow_h=False, max_types=3, with_sender=True, big=False):
     t = draw(st.sampled_from(list(mtypes)))
     req, opt = MSG_FIELDS[t]
     fields = {}
@@ -479,7 +515,15 @@ def message(draw, mtypes=(1, 2, 3, 4), body_depth=2, allow_h=False, max_types=3,
     if draw(st.integers(0, 3)) == 0:
         sig, trees = '', []
     else:
-        sig, trees = draw(typed_values(max_types=max_types, depth=body_depth, allow_h=allow_h))
+        sig, trees = draw(typed_values(max_types=max_types, depth=body_depth, allow_h=allow_h, big=big))
+    if big and draw(st.integers(0, 14)) == 0:
+        # header strings at the 255-byte limit (header array longer than 255 bytes)
+        if 'interface' in fields:
+            fields['interface'] = 'a.' + 'b' * 253
+        if 'member' in fields:
+            fields['member'] = 'm' * 255
+        if 'destination' in fields:
+            fields['destination'] = 'c.' + 'd' * 253
     no_reply = no_auto = False
     if t == 1:
         no_reply = draw(st.booleans())
